@@ -832,8 +832,12 @@ func (m *Manager) computeParentMap() (v1ParentMap, parentMap map[types.Hash256]i
 func updateTxnProofs(txn *types.V2Transaction, updateElementProof func(*types.StateElement), numLeaves uint64) (valid bool) {
 	valid = true
 	updateProof := func(e *types.StateElement) {
+		// ephemeral elements have no proof (yet) and are not in the accumulator
+		if e.LeafIndex == types.UnassignedLeafIndex {
+			return
+		}
 		valid = valid && e.LeafIndex < numLeaves
-		if !valid || e.LeafIndex == types.UnassignedLeafIndex {
+		if !valid {
 			return
 		}
 		*e = e.Copy()
